@@ -268,7 +268,9 @@ impl TryFromHeaderValue for i32 {
     type Error = ParseHeaderError;
 
     fn try_from_header_value(val: &HeaderValue) -> Result<Self, Self::Error> {
-        atoi::atoi(val.as_bytes()).ok_or(ParseHeaderError::Integer)
+        // the whole value must be a number (`atoi` accepts any numeric prefix)
+        let s = val.to_str().map_err(|_| ParseHeaderError::Integer)?;
+        s.parse().map_err(|_| ParseHeaderError::Integer)
     }
 }
 
@@ -276,7 +278,8 @@ impl TryFromHeaderValue for i64 {
     type Error = ParseHeaderError;
 
     fn try_from_header_value(val: &HeaderValue) -> Result<Self, Self::Error> {
-        atoi::atoi(val.as_bytes()).ok_or(ParseHeaderError::Long)
+        let s = val.to_str().map_err(|_| ParseHeaderError::Long)?;
+        s.parse().map_err(|_| ParseHeaderError::Long)
     }
 }
 
